@@ -13,7 +13,7 @@ CLAIMED = {
          "all arrival orders (0..2 yield paddings per op) of <=4 actors x <=2 ops, capacities 0/1/2, blocking/timed/try ops, close, with <=1 (quick) / <=2 (thorough) timeouts landing at arbitrary points; oracle: value conservation, per-sender order, false only for close/timeout, nobody blocked while a partner/slot/item exists",
          "go_sv: one vCPU, virtual clock; go_xv: blocking / timed / try senders, receivers and a closer on 2-3 vCPUs, capacities 0/1/2, <=1-2 / <=2-3 preemptions, SC interleavings; the deadlock outcome is judged against the channel state (lost wake-ups)", "3 C09"),
  "C15": ("exploration", "bounded-exhaustive enumeration of (offset,length,interval) against a byte-walk reference",
-         "complete over intervals 1..9/12, powers of two 2^0..2^4/5 and boundary relations at 2^20/2^32/2^62, all key-point lists with gaps {1,2,3} up to 4/5 blocks",
+         "complete over intervals 1..9/12, powers of two 2^0..2^4/5 and boundary relations at 2^20/2^32/2^62, all key-point lists with gaps {1,2,3} up to 4/5 blocks; part list, class definitions (small note / preface / aligned parts / postface), aligned begin/end",
          "offset+length+interval < 2^64; NDEBUG build", "3 C15"),
 }
 NA_REASON = "harness still being built at the time of this commit (see DESIGN.md section 3); no weaker technique is substituted"
